@@ -18,6 +18,10 @@ package conf
 //@ func conf.CreateTypesTable
 //@   property C09 C16
 //@   case map-range: v.MapKeys() is iterated only to insert key -> type into the result map
+// the methods entered for a struct environment are those of the method set of the type actually passed
+// (T for a value, *T for a pointer): a method the environment value does not have must stay unknown (C03).
+// The clause is evaluated at the back edge, where i has already been incremented.
+//@   loop 0 body-ensures[methods-of-given-type] m.Name == mname(t, i-1) && m.Type == mtype(t, i-1)
 //@ func conf.Config.Check
 //@   assigns *
 //@   property C04 C09 C17
